@@ -8,7 +8,7 @@ use serde::de::DeserializeOwned;
 use serde_json::Value;
 use std::collections::HashMap;
 use std::io::ErrorKind;
-use std::sync::atomic::{AtomicU64, Ordering};
+use std::sync::atomic::{AtomicBool, AtomicU64, Ordering};
 use std::sync::{Arc, Mutex as StdMutex};
 use tokio::net::TcpStream;
 use tokio::sync::mpsc;
@@ -54,6 +54,11 @@ struct WebSocketClientInner {
     /// `futures_channel` sender; that copy lives in `crate::notify_slot`,
     /// where the shared rules are unit-tested. Keep the two in step.
     notify_tx: StdMutex<Option<mpsc::UnboundedSender<Message>>>,
+    /// Set by the response loop, before it fails the calls in flight, when the
+    /// connection is gone; `closed_notify` wakes writers waiting for the writer
+    /// or parked in a send, which must not outlive the connection.
+    closed: AtomicBool,
+    closed_notify: tokio::sync::Notify,
 }
 
 enum PendingDispatch {
@@ -159,6 +164,8 @@ impl WebSocketClient {
             pending: StdMutex::new(HashMap::new()),
             next_id: AtomicU64::new(1),
             notify_tx: StdMutex::new(None),
+            closed: AtomicBool::new(false),
+            closed_notify: tokio::sync::Notify::new(),
         });
 
         spawn_response_loop(reader, Arc::downgrade(&inner));
@@ -606,11 +613,24 @@ impl WebSocketClient {
         // connection, so without this the caller loses the socket and never
         // learns why.
         self.inner.limits.check_outbound(bytes.len())?;
-        let mut writer = self.inner.writer.lock().await;
-        writer
-            .send(WsMessage::Binary(bytes))
-            .await
-            .map_err(websocket_transport_error)?;
+        // Once the response loop has given the connection up, a send must not
+        // wait for the writer or stay parked in it: on a peer that stopped
+        // reading it would hold the writer, and every caller queued behind it,
+        // indefinitely.
+        let closed = self.inner.closed_notify.notified();
+        tokio::pin!(closed);
+        closed.as_mut().enable();
+        if self.inner.closed.load(Ordering::Acquire) {
+            return Err(websocket_closed_error());
+        }
+        let mut writer = tokio::select! {
+            guard = self.inner.writer.lock() => guard,
+            _ = &mut closed => return Err(websocket_closed_error()),
+        };
+        tokio::select! {
+            sent = writer.send(WsMessage::Binary(bytes)) => sent.map_err(websocket_transport_error)?,
+            _ = &mut closed => return Err(websocket_closed_error()),
+        }
         #[cfg(feature = "verif-hooks")]
         {
             drop(writer);
@@ -852,7 +872,12 @@ async fn fail_all_pending(inner: &std::sync::Weak<WebSocketClientInner>, err: Re
     // The subscriber should not wait on it to learn the connection is gone.
     take_notify_sender(&inner_ref);
 
-    let _ = close_writer(&inner_ref).await;
+    // Likewise for the calls in flight and for writers: tell writers the
+    // connection is gone, fail the pending calls, and only then close the writer.
+    // A send parked on a peer that stopped reading holds the writer, and nothing
+    // else may wait for it.
+    inner_ref.closed.store(true, Ordering::Release);
+    inner_ref.closed_notify.notify_waiters();
 
     let waiters = {
         let mut pending = lock_pending_map(&inner_ref.pending);
@@ -862,6 +887,8 @@ async fn fail_all_pending(inner: &std::sync::Weak<WebSocketClientInner>, err: Re
     for (request_id, sender) in waiters {
         let _ = sender.send(Err(clone_fatal_error_for_waiter(&err, request_id)));
     }
+
+    let _ = close_writer(&inner_ref).await;
 }
 
 /// Empty the notify slot, dropping the sender *after* the mutex guard is
